@@ -1,7 +1,8 @@
 import Acra.Model.IENAQDN
 import Acra.Lemmas.Bits
+import Acra.Lemmas.ReviewC09Loop
 namespace Acra.Props.C09
-open Acra.Py Acra.Model.IENA Acra.Gen.IENA
+open Acra.Py Acra.Model.IENA Acra.Gen.IENA Acra.Lemmas.ReviewC09
 
 /-- the dataset length an IENA-Q parameter header declares: big-endian 16 bits at bytes 2..3 -/
 def declaredQ (rem : Bytes) : Nat := beNat (List.drop 2 (List.take 4 rem))
@@ -50,6 +51,117 @@ theorem IENAQ_param_exact (rem : Bytes) (p : QParam) (n : Nat) (h : decQ rem = .
       · simp [hodd]
       · have : d % 2 = 0 := by omega
         simp [this]
+
+/-- witnesses for the per-parameter step -/
+example : decQ [0,3,0,2,101,102,7,7] = .ok ({ paramid := 3, dataset := [101,102] }, 6) := by rfl
+example : decQ [0,3,0,10,101,102] = .error .generic := by rfl
+example : decQ [0,3,0] = .error .struct := by rfl
+
+/-! ### review additions: the check at EVERY position of a multi-parameter IENA-Q packet -/
+
+/-- the IENA-Q parameter area, read declaratively -/
+inductive FitsQ : Bytes → Prop
+  | done : FitsQ []
+  | param (rem : Bytes) : 4 ≤ rem.length → declaredQ rem ≤ rem.length - 4 →
+      FitsQ (rem.drop (4 + declaredQ rem + declaredQ rem % 2)) → FitsQ rem
+
+theorem decQ_pos (b : Bytes) (x : QParam) (n : Nat) (h : decQ b = .ok (x, n)) : 0 < n ∧ 0 < b.length := by
+  have h1 := (IENAQ_param_ok_iff b).1 ⟨x, n, h⟩
+  have h2 := IENAQ_param_exact b x n h
+  omega
+
+theorem IENAQ_walk_iff_fits (pl : Bytes) (off : Nat) :
+    (∃ ps, Walk decQ moreRem pl off ps) ↔ FitsQ (pl.drop off) := by
+  constructor
+  · rintro ⟨ps, hw⟩
+    induction ps generalizing off with
+    | nil =>
+      simp only [Walk, moreRem, decide_eq_false_iff_not] at hw
+      rw [List.drop_eq_nil_of_le (by omega)]; exact .done
+    | cons p ps ih =>
+      obtain ⟨_, n, hd, hw'⟩ := hw
+      have h1 := (IENAQ_param_ok_iff _).1 ⟨p, n, hd⟩
+      have h2 := (IENAQ_param_exact _ p n hd).2
+      refine .param _ h1.1 h1.2 ?_
+      rw [← h2, List.drop_drop]
+      exact ih _ hw'
+  · intro h
+    generalize hr : pl.drop off = rem at h
+    induction h generalizing off with
+    | done =>
+      refine ⟨[], ?_⟩
+      have : pl.length ≤ off := by
+        have := congrArg List.length hr; simp at this; omega
+      simp only [Walk, moreRem, decide_eq_false_iff_not]; omega
+    | param rem h6 hd _ ih =>
+      obtain ⟨p, n, hdec⟩ := (IENAQ_param_ok_iff rem).2 ⟨h6, hd⟩
+      have hn := (IENAQ_param_exact rem p n hdec).2
+      subst hr
+      obtain ⟨ps, hps⟩ := ih (off + n) (by rw [List.drop_drop, hn])
+      refine ⟨p :: ps, ?_, n, hdec, hps⟩
+      simp only [List.length_drop] at h6
+      simp only [moreRem, decide_eq_true_eq]; omega
+
+/-- IENA-Q, whole packet: accepted exactly when the IENA frame is and the parameter area is a chain of
+    parameters each of whose declared dataset lies inside the bytes that remain AT ITS POSITION -/
+theorem IENAQ_accepts_iff (t : QState) (buf : Bytes) :
+    (QState.unpack t buf).2 = .ok () ↔
+      (Base.unpack t.base buf).2 = .ok () ∧ FitsQ (Base.unpack t.base buf).1.payload := by
+  simp only [QState.unpack]
+  cases hu : Base.unpack t.base buf with
+  | mk b' r =>
+    cases r with
+    | error e => simp
+    | ok u =>
+      simp only [true_and]
+      have key : (∃ ps, Walk decQ moreRem b'.payload 0 ps) ↔ FitsQ b'.payload := by
+        simpa using IENAQ_walk_iff_fits b'.payload 0
+      rw [← key]
+      cases hd : decOff decQ moreRem b'.payload (b'.payload.length + 1) 0 with
+      | ok ps =>
+        simp only [true_iff]
+        exact ⟨ps, (decOff_ok_iff_walk _ _ _ decQ_pos ps).1 hd⟩
+      | error e =>
+        simp only [reduceCtorEq, false_iff]
+        rintro ⟨ps, hw⟩
+        rw [(decOff_ok_iff_walk _ _ _ decQ_pos ps).2 hw] at hd
+        cases hd
+
+/-- … and every parameter it returns, at whatever position, has exactly the dataset length its header
+    declares, lying wholly inside the payload: nothing truncated, padded or partially returned -/
+theorem IENAQ_accepted_every_param_exact (t : QState) (buf : Bytes) (h : (QState.unpack t buf).2 = .ok ()) :
+    ∀ p ∈ (QState.unpack t buf).1.parameters, ∃ o,
+      o + 4 + p.dataset.length ≤ (QState.unpack t buf).1.base.payload.length ∧
+      p.dataset.length = declaredQ ((QState.unpack t buf).1.base.payload.drop o) := by
+  revert h
+  simp only [QState.unpack]
+  cases hu : Base.unpack t.base buf with
+  | mk b' r =>
+    cases r with
+    | error e => simp
+    | ok u =>
+      cases hd : decOff decQ moreRem b'.payload (b'.payload.length + 1) 0 with
+      | error e => simp
+      | ok ps =>
+        intro _ p hp
+        obtain ⟨o, n, _, _, hdec⟩ := walk_mem _ _ _ _ _ (decOff_ok_walk _ _ _ _ _ _ hd) p hp
+        have h1 := (IENAQ_param_ok_iff _).1 ⟨p, n, hdec⟩
+        have h2 := (IENAQ_param_exact _ p n hdec).1
+        refine ⟨o, ?_, h2⟩
+        simp only [List.length_drop] at h1
+        show o + 4 + p.dataset.length ≤ b'.payload.length
+        omega
+
+/-- witnesses, whole packet (header declares 15 words = 30 bytes): `abcd`, `ef` accepted and returned whole; the
+    SECOND length forced to 10 (2 bytes remain, the whole payload holds 14) rejected; the first forced to 11 rejected -/
+example : (QState.unpack QState.fresh ([0,1, 0,15, 0,0, 0,0,0,5, 0,0, 0,9] ++ [0,1,0,4,97,98,99,100] ++
+    [0,3,0,2,101,102] ++ [0xDE,0xAD])).2 = .ok () := by rfl
+example : (QState.unpack QState.fresh ([0,1, 0,15, 0,0, 0,0,0,5, 0,0, 0,9] ++ [0,1,0,4,97,98,99,100] ++
+    [0,3,0,2,101,102] ++ [0xDE,0xAD])).1.parameters.map (·.dataset) = [[97,98,99,100],[101,102]] := by rfl
+example : (QState.unpack QState.fresh ([0,1, 0,15, 0,0, 0,0,0,5, 0,0, 0,9] ++ [0,1,0,4,97,98,99,100] ++
+    [0,3,0,10,101,102] ++ [0xDE,0xAD])).2 = .error .generic := by rfl
+example : (QState.unpack QState.fresh ([0,1, 0,15, 0,0, 0,0,0,5, 0,0, 0,9] ++ [0,1,0,11,97,98,99,100] ++
+    [0,3,0,2,101,102] ++ [0xDE,0xAD])).2 = .error .generic := by rfl
 
 /-! ### IENA-D / IENA-N: a whole number of parameters -/
 
@@ -191,5 +303,131 @@ theorem IENAN_accepts_iff (t : NState) (buf : Bytes) :
             Nat.mul_comm _ _
           omega
         simp [hz, hm]
+
+/-! ### review additions: IENA-D / IENA-N exactness and witnesses -/
+
+theorem decDAll_length (dwc : Nat) (payload : Bytes) (l : List Nat) (ps : List DParam)
+    (h : decDAll dwc payload l = .ok ps) : ps.length = l.length := by
+  induction l generalizing ps with
+  | nil => simp [decDAll] at h; subst h; rfl
+  | cons i is ih =>
+    simp only [decDAll] at h
+    split at h
+    · cases h
+    · split at h
+      · simp only [Except.ok.injEq] at h; subst h; simp [ih _ (by assumption)]
+      · cases h
+
+/-- IENA-D, accepted ⇒ nothing truncated, padded or partially returned: as many parameters as whole
+    `2n+4`-byte groups, covering the payload exactly, each with its full `n` data words -/
+theorem IENAD_accepted_exact (t : DState) (buf : Bytes) (h : (DState.unpack t buf).2 = .ok ()) :
+    (DState.unpack t buf).1.parameters.length * (2 * ((DState.unpack t buf).1.base.keystatus % 8) + 4) =
+      (DState.unpack t buf).1.base.payload.length ∧
+    ∀ p ∈ (DState.unpack t buf).1.parameters, p.dwords.length = (DState.unpack t buf).1.base.keystatus % 8 := by
+  have hiff := (IENAD_accepts_iff t buf).1 h
+  revert h hiff
+  simp only [DState.unpack]
+  cases hu : Base.unpack t.base buf with
+  | mk b' r =>
+    cases r with
+    | error e => simp
+    | ok u =>
+      simp only [Lemmas.Bits.and_7, true_and]
+      generalize hn : b'.keystatus % 8 = n
+      intro h hm
+      have hlpb : n * 2 + 4 = 2 * n + 4 := by omega
+      have hz : b'.payload.length - b'.payload.length / (n * 2 + 4) * (n * 2 + 4) = 0 := by
+        rw [hlpb]
+        have := Nat.div_add_mod b'.payload.length (2 * n + 4)
+        have h2 : b'.payload.length / (2 * n + 4) * (2 * n + 4) = (2 * n + 4) * (b'.payload.length / (2 * n + 4)) :=
+          Nat.mul_comm _ _
+        omega
+      obtain ⟨ps, hps, hws⟩ := decDAll_ok n b'.payload (List.range (b'.payload.length / (n * 2 + 4))) (by
+        intro i hi
+        simp only [List.mem_range] at hi
+        have h1 : (i + 1) * (n * 2 + 4) ≤ b'.payload.length / (n * 2 + 4) * (n * 2 + 4) :=
+          Nat.mul_le_mul_right _ hi
+        have h2 : b'.payload.length / (n * 2 + 4) * (n * 2 + 4) ≤ b'.payload.length := Nat.div_mul_le_self _ _
+        rw [Nat.add_mul] at h1
+        omega)
+      have hl := decDAll_length _ _ _ _ hps
+      simp only [hz, ne_eq, not_true_eq_false, if_false, hps, hn]
+      refine ⟨?_, hws⟩
+      have hq : b'.payload.length / (n * 2 + 4) * (n * 2 + 4) = b'.payload.length := by
+        have := Nat.div_mul_le_self b'.payload.length (n * 2 + 4); omega
+      rw [hl, List.length_range, ← hlpb]
+      exact hq
+
+/-- witnesses (keystatus 2 → two data words, 8 bytes per parameter): 16 payload bytes = two parameters accepted,
+    each with 2 words; 14 payload bytes (one parameter and 6 stray bytes) rejected with ValueError -/
+example : (DState.unpack DState.fresh ([0,1, 0,16, 0,0, 0,0,0,5, 2,0, 0,9] ++ [0,1,0,2,0,3,0,4, 0,5,0,6,0,7,0,8] ++
+    [0xDE,0xAD])).2 = .ok () := by rfl
+example : (DState.unpack DState.fresh ([0,1, 0,16, 0,0, 0,0,0,5, 2,0, 0,9] ++ [0,1,0,2,0,3,0,4, 0,5,0,6,0,7,0,8] ++
+    [0xDE,0xAD])).1.parameters.map (·.dwords) = [[3,4],[7,8]] := by rfl
+example : (DState.unpack DState.fresh ([0,1, 0,15, 0,0, 0,0,0,5, 2,0, 0,9] ++ [0,1,0,2,0,3,0,4, 0,5,0,6,0,7] ++
+    [0xDE,0xAD])).2 = .error .value := by rfl
+example : 8 + (2 * 2 + 4) ≤ ([0,1,0,2,0,3,0,4, 0,5,0,6,0,7,0,8] : Bytes).length := by decide
+
+theorem decNAll_length (dwc : Nat) (payload : Bytes) (l : List Nat) (ps : List NParam)
+    (h : decNAll dwc payload l = .ok ps) : ps.length = l.length := by
+  induction l generalizing ps with
+  | nil => simp [decNAll] at h; subst h; rfl
+  | cons i is ih =>
+    simp only [decNAll] at h
+    split at h
+    · cases h
+    · split at h
+      · simp only [Except.ok.injEq] at h; subst h; simp [ih _ (by assumption)]
+      · cases h
+
+/-- IENA-N, accepted ⇒ nothing truncated, padded or partially returned: as many parameters as whole
+    `2n+2`-byte groups, covering the payload exactly, each with its full `n` data words -/
+theorem IENAN_accepted_exact (t : NState) (buf : Bytes) (h : (NState.unpack t buf).2 = .ok ()) :
+    (NState.unpack t buf).1.parameters.length * (2 * ((NState.unpack t buf).1.base.keystatus % 8) + 2) =
+      (NState.unpack t buf).1.base.payload.length ∧
+    ∀ p ∈ (NState.unpack t buf).1.parameters, p.dwords.length = (NState.unpack t buf).1.base.keystatus % 8 := by
+  have hiff := (IENAN_accepts_iff t buf).1 h
+  revert h hiff
+  simp only [NState.unpack]
+  cases hu : Base.unpack t.base buf with
+  | mk b' r =>
+    cases r with
+    | error e => simp
+    | ok u =>
+      simp only [Lemmas.Bits.and_7, true_and]
+      generalize hn : b'.keystatus % 8 = n
+      intro h hm
+      have hlpb : n * 2 + 2 = 2 * n + 2 := by omega
+      have hz : b'.payload.length - b'.payload.length / (n * 2 + 2) * (n * 2 + 2) = 0 := by
+        rw [hlpb]
+        have := Nat.div_add_mod b'.payload.length (2 * n + 2)
+        have h2 : b'.payload.length / (2 * n + 2) * (2 * n + 2) = (2 * n + 2) * (b'.payload.length / (2 * n + 2)) :=
+          Nat.mul_comm _ _
+        omega
+      obtain ⟨ps, hps, hws⟩ := decNAll_ok n b'.payload (List.range (b'.payload.length / (n * 2 + 2))) (by
+        intro i hi
+        simp only [List.mem_range] at hi
+        have h1 : (i + 1) * (n * 2 + 2) ≤ b'.payload.length / (n * 2 + 2) * (n * 2 + 2) :=
+          Nat.mul_le_mul_right _ hi
+        have h2 : b'.payload.length / (n * 2 + 2) * (n * 2 + 2) ≤ b'.payload.length := Nat.div_mul_le_self _ _
+        rw [Nat.add_mul] at h1
+        omega)
+      have hl := decNAll_length _ _ _ _ hps
+      simp only [hz, ne_eq, not_true_eq_false, if_false, hps, hn]
+      refine ⟨?_, hws⟩
+      have hq : b'.payload.length / (n * 2 + 2) * (n * 2 + 2) = b'.payload.length := by
+        have := Nat.div_mul_le_self b'.payload.length (n * 2 + 2); omega
+      rw [hl, List.length_range, ← hlpb]
+      exact hq
+
+/-- witnesses (keystatus 2 → 6 bytes per parameter): 12 payload bytes accepted as two parameters of 2 words;
+    14 payload bytes rejected with ValueError -/
+example : (NState.unpack NState.fresh ([0,1, 0,14, 0,0, 0,0,0,5, 2,0, 0,9] ++ [0,1,0,3,0,4, 0,5,0,7,0,8] ++
+    [0xDE,0xAD])).2 = .ok () := by rfl
+example : (NState.unpack NState.fresh ([0,1, 0,14, 0,0, 0,0,0,5, 2,0, 0,9] ++ [0,1,0,3,0,4, 0,5,0,7,0,8] ++
+    [0xDE,0xAD])).1.parameters.map (·.dwords) = [[3,4],[7,8]] := by rfl
+example : (NState.unpack NState.fresh ([0,1, 0,15, 0,0, 0,0,0,5, 2,0, 0,9] ++ [0,1,0,3,0,4, 0,5,0,7,0,8, 0,9] ++
+    [0xDE,0xAD])).2 = .error .value := by rfl
+example : 6 + (2 * 2 + 2) ≤ ([0,1,0,3,0,4, 0,5,0,7,0,8] : Bytes).length := by decide
 
 end Acra.Props.C09
